@@ -133,3 +133,17 @@ SCALE = 0.125
 
 def scaled(x, SCALE):  # noqa: N803  an argument named like a module-level constant
     return x * SCALE
+
+
+HILL_N = 2  # an int constant: fn_to_sympy only resolves module-level floats (KeyError)
+
+
+def hill(x, k):
+    return k * x**HILL_N
+
+
+def uses_loop(x, k):
+    r = 0.0
+    for _ in range(2):
+        r = r + k * x
+    return r
